@@ -158,6 +158,7 @@ class LoopParser(SubParser):
         if not self._init_index_var(context_stack):
             return False
         if self.current_token.is_a(TokenTypes.IN):
+            context_stack.add_variable(self._index_var)
             code_gen.add_instruction(OpCode.MOVEQ, 0, LoopVar.COUNTER)
             self._loop_type = _LoopType.LIST
             self.next_token()
@@ -173,6 +174,8 @@ class LoopParser(SubParser):
         else:
             return self.token_error(
                 'Needed "from" or "cycle", got "{}"')
+        # The index variable exists only after its range has been evaluated.
+        context_stack.add_variable(self._index_var)
         return True
 
     def _pre_loop_and(self) -> bool:
@@ -197,7 +200,6 @@ class LoopParser(SubParser):
         if not self.current_token.is_a(TokenTypes.NAME):
             return self.token_error('Not a variable name: "{}"')
         self._index_var = str(self.current_token)
-        context_stack.add_variable(self._index_var)
         return self.next_token()
 
     def _index_var_range(self, code_gen) -> bool:
